@@ -135,6 +135,9 @@ impl Searcher {
         let max_depth = max_depth.unwrap_or(usize::MAX);
         let mut rng = rng;
 
+        #[cfg(weechess_verif)]
+        verif::search_start(&previous_artifact, max_depth);
+
         let (hasher, transpositions, mut state_history) = previous_artifact
             .map(|a| (a.hasher, a.transpositions, a.state_history))
             .unwrap_or_else(|| {
@@ -165,6 +168,9 @@ impl Searcher {
         state_history.increment(game_state_hash);
 
         for depth in 0..max_depth {
+            #[cfg(weechess_verif)]
+            verif::iter_start(depth, max_thread_count.unwrap_or(if depth < 3 { 1 } else { usize::MAX }));
+
             // Don't bother doing multiple threads if we're only searching a few moves
             // as the OS overhead will likely outweigh the benefits of parallelism
             let thread_count = max_thread_count.unwrap_or_else(|| {
@@ -180,6 +186,8 @@ impl Searcher {
                 game_state: State,
                 best_move: Option<Move>,
                 search_depth: usize,
+                #[cfg(weechess_verif)]
+                verif_worker: usize,
             }
 
             // This is a variation of lazy SMP. We rely on the non-determanistic
@@ -200,6 +208,8 @@ impl Searcher {
                     } else {
                         None
                     },
+                    #[cfg(weechess_verif)]
+                    verif_worker: i,
                 })
                 .collect();
 
@@ -213,6 +223,10 @@ impl Searcher {
                         let mut rng = data.rng;
                         let mut nodes_searched = 0;
                         let mut move_buffer = Vec::new();
+
+                        #[cfg(weechess_verif)]
+                        let _verif_guard =
+                            verif::worker_enter(data.verif_worker, thread_count, depth, search_depth);
 
                         let result: Result<Evaluation, SearchInterrupt> = Self::analyze_recursive(
                             &game_state,
@@ -348,9 +362,15 @@ impl Searcher {
         // We're searching a new node here
         *nodes_searched += 1;
 
+        #[cfg(weechess_verif)]
+        verif::on_node(token);
+
         // To avoid spending a lot of time waiting for atomic operations,
         // let's avoid checking the cancellation token in the lower leaf nodes
         if *nodes_searched % 10000 == 0 && token.is_cancelled() {
+            #[cfg(weechess_verif)]
+            verif::wb_simple("Interrupt");
+
             return Err(SearchInterrupt);
         }
 
@@ -361,8 +381,22 @@ impl Searcher {
         // by repetition and as a key into the transposition table
         let state_hash = hasher.hash(game_state);
 
+        #[cfg(weechess_verif)]
+        verif::wb_enter(
+            state_hash,
+            max_depth,
+            current_depth,
+            current_extension,
+            alpha,
+            beta,
+            &prioritized_move,
+        );
+
         // Early check for draws by repetition
         if current_depth > 0 && state_history.lookup(&state_hash).is_some() {
+            #[cfg(weechess_verif)]
+            verif::wb_simple("HistoryHit");
+
             // We're just going to pretend that a one-fold repitition is a draw for simplicity
             return Ok(eval::Evaluation::EVEN);
         }
@@ -377,6 +411,9 @@ impl Searcher {
                 // about to search now, so we can use the existing evaluation
                 match entry.kind {
                     EvaluationKind::Exact => {
+                        #[cfg(weechess_verif)]
+                        verif::wb_value("ProbeReturn", entry.evaluation);
+
                         return Ok(entry.evaluation);
                     }
                     EvaluationKind::UpperBound => {
@@ -388,6 +425,9 @@ impl Searcher {
                 }
 
                 if alpha >= beta {
+                    #[cfg(weechess_verif)]
+                    verif::wb_value("ProbeReturn", entry.evaluation);
+
                     return Ok(entry.evaluation);
                 }
             }
@@ -398,6 +438,9 @@ impl Searcher {
         // here. In reality, we're probably about to lose our queen for that pawn, so
         // we need to exaust all captures in the current position before we evaluate it
         if current_depth >= max_depth {
+            #[cfg(weechess_verif)]
+            verif::wb_simple("Quiesce");
+
             return Self::quiescence_search(game_state, evaluator, current_depth, alpha, beta);
         }
 
@@ -455,6 +498,9 @@ impl Searcher {
                 0
             };
 
+            #[cfg(weechess_verif)]
+            verif::wb_descend(&mv, extension);
+
             let evaluation = -Self::analyze_recursive(
                 &new_state,
                 evaluator,
@@ -472,6 +518,9 @@ impl Searcher {
                 &mut next_buffer,
                 nodes_searched,
             )?;
+
+            #[cfg(weechess_verif)]
+            verif::wb_value("Child", evaluation);
 
             // This move is too good for the opponent, so they will never allow us to reach
             // this position. We can stop searching this position because we know that the
@@ -502,6 +551,10 @@ impl Searcher {
         if previous_nodes_searched == *nodes_searched {
             let evaluation =
                 evaluator.evaluate(game_state, game_state.turn_to_move(), current_depth);
+
+            #[cfg(weechess_verif)]
+            verif::wb_value("Terminal", evaluation);
+
             return Ok(evaluation);
         }
 
@@ -517,6 +570,9 @@ impl Searcher {
                 },
             );
         }
+
+        #[cfg(weechess_verif)]
+        verif::wb_value("Return", alpha);
 
         Ok(alpha)
     }
@@ -681,11 +737,15 @@ impl TranspositionTableAccess {
 
     fn insert(&self, hash: Hash, entry: TranspositionEntry) {
         let index = hash as usize % self.tables.len();
+        #[cfg(weechess_verif)]
+        verif::sched_point();
         self.tables[index].write().unwrap().insert(hash, entry);
     }
 
     fn find(&self, hash: Hash) -> Option<TranspositionEntry> {
         let index = hash as usize % self.tables.len();
+        #[cfg(weechess_verif)]
+        verif::sched_point();
         self.tables[index].read().unwrap().find(hash).copied()
     }
 
@@ -726,6 +786,10 @@ impl TranspositionTableAccess {
 struct TranspositionTable {
     buckets: Vec<TranspositionBucket>,
     used_slots: usize,
+    #[cfg(weechess_verif)]
+    verif_id: usize,
+    #[cfg(weechess_verif)]
+    verif_version: u64,
 }
 
 impl TranspositionTable {
@@ -733,6 +797,10 @@ impl TranspositionTable {
         Self {
             buckets: vec![TranspositionBucket::empty(); size],
             used_slots: 0,
+            #[cfg(weechess_verif)]
+            verif_id: verif::next_table_id(),
+            #[cfg(weechess_verif)]
+            verif_version: 0,
         }
     }
 
@@ -744,6 +812,8 @@ impl TranspositionTable {
 
     fn find(&self, hash: Hash) -> Option<&TranspositionEntry> {
         let bucket = hash as usize % self.buckets.len();
+        #[cfg(weechess_verif)]
+        verif::tt_find(self.verif_id, self.verif_version, hash, self.buckets[bucket].find(hash));
         self.buckets[bucket].find(hash)
     }
 
@@ -755,9 +825,16 @@ impl TranspositionTable {
         {
             self.used_slots += 1;
         }
+        #[cfg(weechess_verif)]
+        {
+            self.verif_version += 1;
+            verif::tt_insert(self.verif_id, self.verif_version, hash, &entry, self.used_slots);
+        }
     }
 
     fn entries(&self) -> usize {
+        #[cfg(weechess_verif)]
+        verif::tt_entries(self.verif_id, self.verif_version, self.used_slots, self.max_entries());
         self.used_slots
     }
 
@@ -923,6 +1000,10 @@ impl CancellationToken {
         self.cancelled.load(Ordering::Relaxed)
     }
 }
+
+#[cfg(weechess_verif)]
+#[path = "searcher_verif.rs"]
+pub mod verif;
 
 #[cfg(test)]
 mod tests {
